@@ -5,6 +5,7 @@ import (
 	"go/token"
 	"go/types"
 	"regexp"
+	"strconv"
 	"strings"
 
 	"github.com/cloudflare/ahocorasick"
@@ -688,7 +689,11 @@ func importedPackage(pass *analysis.Pass, spec *ast.ImportSpec) *types.Package {
 	if spec == nil || spec.Path == nil || pass.Pkg == nil {
 		return nil
 	}
-	path := strings.Trim(spec.Path.Value, `"`)
+	// The path is a string literal: interpreted ("path") or raw (`path`)
+	path, err := strconv.Unquote(spec.Path.Value)
+	if err != nil {
+		path = strings.Trim(spec.Path.Value, `"`)
+	}
 	for _, imp := range pass.Pkg.Imports() {
 		if imp.Path() == path {
 			return imp
